@@ -4,8 +4,8 @@ C16 — model of what a transaction block does when backend commands fail.
 
 Mirrors `cashews/wrapper/transaction.py` (`TransactionContextDecorator.__aenter__/__aexit__/close`,
 `Transaction.wrap/commit/rollback/_rollback`) and `cashews/backends/transaction.py`
-(`TransactionBackend.set/incr/get/delete/set_many/delete_many/commit/rollback`,
-`LockTransactionBackend._lock_updates/_unlock_updates/set_many/delete_many/commit/rollback`) for ONE task (the
+(`TransactionBackend.set/incr/get/delete/expire/exists/set_many/delete_many/commit/rollback`,
+`LockTransactionBackend._lock_updates/_unlock_updates/set/incr/delete/expire/set_many/delete_many/commit/rollback`) for ONE task (the
 *victim*), in an exception monad over a world state.
 
 Other tasks appear as an **environment**: lock keys may be held by foreign owners (entries with `mine = false`),
@@ -109,6 +109,7 @@ inductive BCmd where
   | unlock (lk : Nat)
   | deleteMany (ks : List Nat)
   | setMany (kvs : List (Nat × Int)) (ttl : Option Nat)
+  | has (k : Nat)                                -- `exists(key)` (`exists` is a Lean keyword)
   deriving DecidableEq, Repr
 
 inductive Reply where
@@ -241,6 +242,7 @@ def applyCmd (b : Nat) (c : BCmd) (w : FWorld) : Reply × FWorld :=
       else (.bool false, w)
   | .deleteMany ks => (.unit, { w with data := ks.foldl (fun d k => alErase d (b, k)) w.data })
   | .setMany kvs ttl => (.unit, { w with data := kvs.foldl (fun d kv => memSet w.now d (b, kv.1) kv.2 ttl) w.data })
+  | .has k => (.bool (memGet w.now w.data (b, k)).2.isSome, w)                           -- `Memory.exists` = `_key_exist`
 
 /-- the environment releases one foreign lock: the other owner's `unlock` deletes its own entry; an entry
 carrying the victim's token is never touched by anybody else (`unlock` is owner-checked) -/
@@ -341,16 +343,18 @@ def incrSeed (cfg : Cfg) (b k : Nat) : M Unit := do
     modB b fun t => { t with ov := memSet w.now t.ov k (replyInt cur) none }
   else pure ()
 
-/-- `incr(key)`: lock; seed the overlay from the backend unless the key is buffered or pending deletion;
-`_to_delete.discard`; `_local_cache.incr` (`value += int(await self._get(key, 0)); self._set(key, value, None)`) -/
-def txIncr (cfg : Cfg) (b k : Nat) : M Reply := do
+/-- `incr(key, 1, expire)`: lock; seed the overlay from the backend unless the key is buffered or pending deletion;
+`_to_delete.discard`; `_local_cache.incr` (`value += int(await self._get(key, 0)); _expire = None if value != 1 else
+expire; self._set(key, value, _expire)`: the TTL is applied only when the counter is created) -/
+def txIncr (cfg : Cfg) (b k : Nat) (ttl : Option Nat) : M Reply := do
   wrap b
   lockUpdates cfg b k
   incrSeed cfg b k
   let w ← getW
   let p := memGet w.now (getB w b).ov k
-  modB b fun t => { t with del := t.del.filter (· ≠ k), ov := memSet w.now p.1 k (1 + p.2.getD 0) none }
-  pure (.int (1 + p.2.getD 0))
+  let nv : Int := 1 + p.2.getD 0
+  modB b fun t => { t with del := t.del.filter (· ≠ k), ov := memSet w.now p.1 k nv (if nv = 1 then ttl else none) }
+  pure (.int nv)
 
 /-- `get(key)`: pending deletion → default; overlay hit; else the backend -/
 def txGet (cfg : Cfg) (b k : Nat) : M Reply := do
@@ -371,6 +375,64 @@ def txDelete (cfg : Cfg) (b k : Nat) : M Reply := do
   lockUpdates cfg b k
   modB b fun t => { t with ov := alErase t.ov k, del := addDel t.del k }
   pure (.bool true)
+
+/-- `TransactionBackend.exists(key)`: `if await self._local_cache.exists(key): return True; if self._key_is_delete(key):
+return False; return await self._backend.exists(key)` — the last one a backend command that can fail -/
+def txExists (cfg : Cfg) (b k : Nat) : M Bool := do
+  let w ← getW
+  let t := getB w b
+  let p := memGet w.now t.ov k                              -- `_local_cache.exists` is a `_get`
+  modB b fun t => { t with ov := p.1 }
+  if p.2.isSome then pure true
+  else if k ∈ t.del then pure false
+  else do
+    let r ← backendCmd cfg b (.has k)
+    pure (decide (r = .bool true))
+
+/-- `set(key, value, expire, exist=True|False)`: lock; `if await self.exists(key) is not exist: return False` (the read
+happens AFTER the lock was taken and can fail); then as an unconditional `set` -/
+def txSetIf (cfg : Cfg) (b k : Nat) (v : Int) (ttl : Option Nat) (exist : Bool) : M Reply := do
+  wrap b
+  lockUpdates cfg b k
+  let e ← txExists cfg b k
+  if e ≠ exist then pure (.bool false)
+  else do
+    let w ← getW
+    modB b fun t => { t with del := t.del.filter (· ≠ k), ov := memSet w.now t.ov k v ttl }
+    pure (.bool true)
+
+/-- `expire(key, timeout)`: lock;
+```
+if self._key_is_delete(key): return
+if await self._local_cache.exists(key): return await self._local_cache.expire(key, timeout)
+value = await self._backend.get(key, default=_empty)
+if value is _empty: return
+await self._local_cache.set(key, value, expire=timeout)
+```
+pending deletion → nothing; buffered → the buffered entry gets the new TTL (`Memory.expire`: `_set(key, stored value,
+timeout)`); otherwise the value is READ from the backend (a command that can fail, after the lock was taken) and BUFFERED
+with the new TTL — the store itself is not touched before commit.  `timeout = 0` is "no TTL given" to `_set`: a live
+buffered entry keeps its deadline. -/
+def txExpire (cfg : Cfg) (b k : Nat) (ttl : Nat) : M Reply := do
+  wrap b
+  lockUpdates cfg b k
+  let w ← getW
+  let t := getB w b
+  if k ∈ t.del then pure .unit
+  else do
+    let p := memGet w.now t.ov k                            -- `_local_cache.exists`
+    modB b fun t => { t with ov := p.1 }
+    match p.2 with
+    | some v =>
+      modB b fun t => { t with ov := memSet w.now t.ov k v (some ttl) }
+      pure .unit
+    | none => do
+      let r ← backendCmd cfg b (.get k)
+      match r with
+      | .val (some v) =>
+        modB b fun t => { t with ov := memSet w.now t.ov k v (some ttl) }
+        pure .unit
+      | _ => pure .unit
 
 /-- `for key in pairs: await self._lock_updates(key)` — one key after the other: the acquisition of a key has
 returned or raised before the next one starts -/
@@ -534,26 +596,30 @@ def aexit (cfg : Cfg) (exc : Bool) : M Unit := fun w =>
 /-- what the body of the block may do (through the `Cache` facade) -/
 inductive BodyCmd where
   | set (b k : Nat) (v : Int) (ttl : Option Nat)
-  | incr (b k : Nat)
+  | incr (b k : Nat) (ttl : Option Nat)
   | get (b k : Nat)
   | delete (b k : Nat)
   | adv (dt : Nat)          -- time passes
   | raise                   -- the body raises its own exception
   | setMany (b : Nat) (kvs : List (Nat × Int)) (ttl : Option Nat)
   | delMany (b : Nat) (ks : List Nat)
+  | expire (b k : Nat) (ttl : Nat)
+  | setIf (b k : Nat) (v : Int) (ttl : Option Nat) (exist : Bool)
   deriving DecidableEq, Repr
 
 def emit (r : Reply) : M Unit := modW fun w => { w with outs := w.outs ++ [r] }
 
 def bodyStep (cfg : Cfg) : BodyCmd → M Unit
   | .set b k v ttl => do let r ← txSet cfg b k v ttl; emit r
-  | .incr b k => do let r ← txIncr cfg b k; emit r
+  | .incr b k ttl => do let r ← txIncr cfg b k ttl; emit r
   | .get b k => do let r ← txGet cfg b k; emit r
   | .delete b k => do let r ← txDelete cfg b k; emit r
   | .adv dt => modW fun w => { w with now := w.now + dt }
   | .raise => throw .body
   | .setMany b kvs ttl => do let r ← txSetMany cfg b kvs ttl; emit r
   | .delMany b ks => do let r ← txDelMany cfg b ks; emit r
+  | .expire b k ttl => do let r ← txExpire cfg b k ttl; emit r
+  | .setIf b k v ttl ex => do let r ← txSetIf cfg b k v ttl ex; emit r
 
 def runBody (cfg : Cfg) : List BodyCmd → M Unit
   | [] => M.pure ()
@@ -583,6 +649,12 @@ def facadeSet (cfg : Cfg) (b k : Nat) (v : Int) : M Reply := fun w =>
 
 /-- live read of the real store (observer) -/
 def dataView (w : FWorld) (b k : Nat) : Option Int := (memGet w.now w.data (b, k)).2
+
+/-- the whole live entry of the real store: value AND deadline (observer: `get` + when the key lapses) -/
+def entryView (w : FWorld) (b k : Nat) : Option DEntry :=
+  match alLookup w.data (b, k) with
+  | some e => if liveAt e.dl w.now then some e else none
+  | none => none
 
 def FWorld.init : FWorld := ⟨0, 0, [], [], [], [], none⟩
 
